@@ -35,7 +35,7 @@ CHECKS = {
         "engine": "pysim",
         "level_claimed": {
             "category": "exploration",
-            "text": "Seeded edit histories (add instance / string / file in four text formats, remove by index, index list, instance, instance list, allowed and required setters, de-duplication, reindex) on 1-3 live networks of different element-list configurations, interleaved by a seeded scheduler with each other and with foreign writers of the process-global parser tables, with open/read/parse faults on add-from-file; after every event every live network is compared with a recompute-from-scratch reference model over the simulator's own species identities. One run in five drives the 'naunet extend' pipeline in-process and checks its output files. Sampling, not proof.",
+            "text": "Seeded edit histories (add instance / string / file in five text formats, remove by index, index list, instance, instance list, allowed and required setters, de-duplication, reindex) on 1-3 live networks of six element-list configurations (mixed and upper case, '#' and 'G' ice prefixes, ortho/para names differing only in case, sibling networks sharing their reaction objects), interleaved by a seeded scheduler with each other and with foreign writers of the process-global parser tables, with open/read/parse faults on add-from-file; after every event every live network is compared with a recompute-from-scratch reference model over the simulator's own species identities. One run in five drives the 'naunet extend' pipeline in-process and checks its output files. A regression corpus of minimised histories of earlier violations is replayed after the exploration. Sampling, not proof.",
             "design_ref": "DESIGN.md section 3",
         },
         "level_note": "Trusted: the reference model (sim/model.py, ~110 lines, no naunet imports), the spelling->identity tables of sim/world.py, and the reading of 'removal by instance' as the documented reaction equality applied to held reactions. Call-boundary interleavings only (naunet is single-threaded and never yields inside a call).",
@@ -50,7 +50,7 @@ CHECKS = {
         "engine": "pysim",
         "level_claimed": {
             "category": "exploration",
-            "text": "Scripted sessions drawn from a library of ~100 literal network descriptions plus three systematic near twins of each (one perturbation of state that is global or shared: a coefficient, a KROME directive, a binding energy, a replacement table, int vs float bounds, list order ...) (API networks in kida/umist/naunet/krome formats with mixed-case and upper-case element lists, '#' and 'G' surface prefixes, grain models, rate/ODE modifiers, KROME @var/@common/@format directives; CLI projects with replacement tables, binding energies, photon yields) run in one interpreter in two strata: an enumerated one (every description chained with its near twins and with the members of its family, in both orders and with all networks constructed first) and a seeded one where 2-4 sessions are interleaved step by step by a seeded scheduler with foreign writers of the parser tables, simulated-clock jumps across month/year ends, aborted neighbours (corrupted file, abandoned session) and failed-and-retried steps of the victim (open failure, disk-full during render). Every rendering - first, repeated, after an edit - must be byte-identical (sha256 per file) to the rendering of the same description alone in a pristine interpreter under three reference hash seeds; the simulation itself runs under eight more. Sampling, not proof.",
+            "text": "Scripted sessions drawn from a library of ~100 literal network descriptions plus three systematic near twins of each (one perturbation of state that is global or shared: a coefficient, a KROME directive, a binding energy, a replacement table, int vs float bounds, list order ...) (API networks in kida/umist/naunet/krome formats with mixed-case and upper-case element lists, '#' and 'G' surface prefixes, grain models, rate/ODE modifiers, KROME @var/@common/@format directives; CLI projects with replacement tables, binding energies, photon yields) run in one interpreter in two strata: an enumerated one (every description chained with its near twins and with the members of its family, in both orders and with all networks constructed first) and a seeded one where 2-4 sessions are interleaved step by step by a seeded scheduler with foreign writers of the parser tables, simulated-clock jumps across month/year ends, aborted neighbours (corrupted file, abandoned session) and failed-and-retried steps of the victim (open failure, disk-full during render). Every rendering - first, repeated, after an edit - must be byte-identical (sha256 per file) to the rendering of the same description alone in a pristine interpreter under three reference hash seeds; the simulation itself runs under eight more. Solo-only variants (a sibling network built from the first one's reactions, a reused TemplateLoader with edits that leave the reactions alone, read-only write / patch-generation steps) are judged against the same script without them. A regression corpus of minimised schedules of earlier violations is replayed after the exploration. Sampling, not proof.",
             "design_ref": "DESIGN.md section 4",
         },
         "level_note": "Trusted: the same tree's own solo rendering as reference (C17 cannot say whether it is right, only whether it is the same); a forked child of a pristine post-import interpreter counts as a fresh interpreter. Victim sessions always carry explicit element lists; bare Species/Reaction constructions are atomic with installing the session's lists.",
@@ -65,7 +65,7 @@ CHECKS = {
         "engine": "cxxsim",
         "level_claimed": {
             "category": "fault_enumeration",
-            "text": "The rendered Naunet::Solve/HandleError/PyWrapSolve (cvode dense, sparse, cusparse; odeint) of the current tree run unmodified against a scripted mock integrator whose solution is y(t)=y0+t, so the final state measures integrated time. A seed-independent stratum places one fault at every (recovery level, sub-step) call slot for every flag class and partial-progress class, every failing re-initialisation level and every failing set-up call; on top of it a seeded search samples multi-fault sequences, several Solve calls per object, Reset, and both entry points. Sampling, not proof: a clean batch is evidence.",
+            "text": "The rendered Naunet::Solve/HandleError/PyWrapSolve (cvode dense, sparse, cusparse; odeint) of the current tree run unmodified against a scripted mock integrator whose solution is y(t)=y0+t, so the final state measures integrated time. A seed-independent stratum places one fault at every (recovery level, sub-step) call slot for every flag class and partial-progress class, every failing re-initialisation level and every failing set-up call; on top of it a seeded search samples multi-fault sequences, several Solve calls per object, Reset with another number of systems, Finalize+Init, overlapping object lifetimes, persistent failures and both entry points, over twelve renderings (back-end x kind of network). The error record accumulates: a failing call's initial state must be logged and still be there at the next object boundaries. A regression corpus of minimised scenarios of earlier violations is replayed after the exploration. Sampling, not proof: a clean batch is evidence.",
             "design_ref": "DESIGN.md section 5",
         },
         "level_note": "Trusted: the mock's model of CVODE return conventions (flag<0 on failure, y/tret at the last time reached, CV_ILL_INPUT for tout<=t) and of Boost integrate_adaptive's observer protocol; real SUNDIALS/Boost/CUDA are not installed. Header shims in sim/cxx/shim.",
